@@ -11,6 +11,7 @@ import Djc.Proofs.Slotty
 import Djc.Proofs.Filled
 import Djc.Spec.Render
 import Djc.Proofs.Stitch
+import Djc.Proofs.TreeFail
 namespace Djc.Props.C01
 open Djc.Tpl Djc.Render Djc.Proofs.Render
 
@@ -434,6 +435,20 @@ theorem C01_full_partial_component_trees_compose_in_order (env : Env) (hlib : Dj
     (h : (renderCompTag env fuel name kwargs only dyn body ctx).run.run w = (.ok toks, w')) :
     Djc.Proofs.Stitch.Exp env [Tok.hole w.nextId []] toks :=
   Djc.Proofs.Stitch.tree_root_output env hlib fuel name kwargs only dyn body ctx w w' toks hd hb hc hw hext hpar h
+
+/-- **… and this holds whatever the process did before**: after *any* history of earlier top-level renders of the
+fragment — returning or raising, in any order, with whatever residue the failed ones left in the registries — a render
+that returns still returns the in-order composition of its instances' outputs, numbered from the current id counter. -/
+theorem C01_full_partial_component_trees_compose_in_order_after_any_history (env : Env) (hlib : Djc.Proofs.Tree.GoodLib env)
+    (fuel : Nat) (qs : List Djc.Proofs.TreeFail.Req) (hqs : ∀ q ∈ qs, q.Good env) (w0 : World) (hw0 : Djc.Proofs.Tree.WInv w0)
+    (q : Djc.Proofs.TreeFail.Req) (hq : q.Good env) (w' : World) (toks : List Tok)
+    (h : (renderCompTag env fuel q.name q.kwargs q.only false q.body q.ctx).run.run (Djc.Proofs.TreeFail.runHist env fuel qs w0) = (.ok toks, w')) :
+    Djc.Proofs.Stitch.Exp env [Tok.hole (Djc.Proofs.TreeFail.runHist env fuel qs w0).nextId []] toks ∧
+      Djc.Proofs.Tree.holeIds toks = [] := by
+  have hw := (Djc.Proofs.TreeFail.history_frame env hlib fuel qs w0 hqs hw0).winv hw0
+  obtain ⟨hd, hb, hc, hext, hpar⟩ := hq
+  exact ⟨Djc.Proofs.Stitch.tree_root_output env hlib fuel q.name q.kwargs q.only false q.body q.ctx _ w' toks hd hb hc hw hext hpar h,
+    (Djc.Proofs.Tree.tree_root_tag env hlib fuel q.name q.kwargs q.only false q.body q.ctx _ w' toks hd hb hc hw hext hpar h).2⟩
 
 /-- instance (kernel-evaluated): the three-level library of `Djc/Proofs/Tree.lean` meets the hypotheses and its page is
 the expected in-order token list -/
